@@ -386,7 +386,7 @@ pub fn gen_zone(r: &mut Rng, o: ZoneOpts) -> ZoneSpec {
         style = r.below(32) as u8;
         rule = Some(rs);
     }
-    let mut z = ZoneSpec { version, types, trans, leaps, rule, rule_style: style, desig_mode: r.below(2) as u8, indicators: r.below(4) as u8, decoy: if r.chance(1, 2) { 0 } else { 1 + r.next() % 1_000_000 } };
+    let mut z = ZoneSpec { version, types, trans, leaps, rule, rule_style: style, desig_mode: (r.below(2) | if r.chance(1, 6) { 4 } else { 0 } | if r.chance(1, 300) { 2 } else { 0 }) as u8, indicators: r.below(4) as u8, decoy: if r.chance(1, 2) { 0 } else { 1 + r.next() % 1_000_000 } };
 
     // sometimes move the last transition right next to an instant at which the rule changes
     // (where a mistake in evaluating the consistency requirement shows), leap seconds included
